@@ -361,6 +361,9 @@ func visitInstr(fr *frame, instr ssa.Instruction) continuation {
 
 	case *ssa.Range:
 		x := fr.get(instr.X)
+		if m, ok := x.(*omap); ok && m != nil {
+			i.memAccess(fr, m.loc(), false)
+		}
 		if m, ok := x.(*omap); ok && m != nil && i.opts.ReverseMaps {
 			rev := make([]*mentry, 0, len(m.entries))
 			for k := len(m.entries) - 1; k >= 0; k-- {
@@ -427,6 +430,9 @@ func visitInstr(fr *frame, instr ssa.Instruction) continuation {
 		case *SymStr:
 			fr.env[instr] = i.indexRead(x.B, fr.get(instr.Index))
 		default:
+			if m, ok := x.(*omap); ok && m != nil {
+				i.memAccess(fr, m.loc(), false)
+			}
 			fr.env[instr] = i.lookup(instr, x, fr.get(instr.Index))
 		}
 
@@ -439,6 +445,7 @@ func visitInstr(fr *frame, instr ssa.Instruction) continuation {
 			if m == nil {
 				panic(targetPanicString(i, "assignment to entry in nil map"))
 			}
+			i.memAccess(fr, m.loc(), true)
 			m.insert(i, copyVal(key), copyVal(v))
 		default:
 			panic(fmt.Sprintf("illegal map type: %T", m))
